@@ -123,6 +123,13 @@ def connection(rng, c, kind, ipid, maxpieces=4):
         body = rng.choice([b"body %d" % c, b"", b"\x00\xff\xfe binary \r\n\r\n tail", b"x" * 300])
         S_ = nl.join([b"HTTP/%s %d %s" % (b"1.0" if v10 else b"1.1", rng.choice([200, 404, 301]), rng.choice([b"OK", b"Not Found", b""])), b"Server: srv-%d" % c, b"Content-Type: text/plain"]
                      + ([b"Date: Mon, 01 Jan 2024 00:00:00 GMT"] if rng.random() < 0.5 else [])) + nl + nl + body
+        if rng.random() < 0.2:
+            # cleartext HTTP/2 with prior knowledge: preface, SETTINGS, one request HEADERS frame; the server's SETTINGS, HEADERS, DATA
+            h2f = lambda t, fl, st, pl: bytes([0, len(pl) >> 8, len(pl) & 255, t, fl, 0, 0, 0, st]) + pl
+            ua = b"agent-%d/2" % c
+            R = b"PRI * HTTP/2.0\r\n\r\nSM\r\n\r\n" + h2f(4, 0, 0, bytes([0, 3, 0, 0, 0, 100])) + h2f(1, 5, 1, bytes([0x82, 0x86, 0x84, 0x41, 9]) + b"h%04d.ex." % (c % 10000) + bytes([0x0f, 0x2b, len(ua)]) + ua)
+            sv = b"srv-%d" % c
+            S_ = h2f(4, 0, 0, b"") + h2f(1, 4, 1, bytes([0x88, 0x0f, 0x27, len(sv)]) + sv) + h2f(0, 1, 1, body[:50])
         off = 0
         for piece in cut(rng, R, maxpieces):
             frames.append(C(ic + 1 + off, is_ + 1, 0x18, piece, ts(1100 + c + off, 5)))
